@@ -335,6 +335,24 @@ def _explicit_raises(ctx) -> None:
     ctx.ob("EXC.hierarchy", "ParserError", [un(b) for b in pe.cls("ParserError").bases] == ["ValueError"], "ParserError(ValueError)", pe.rel)
 
 
+def _backend_agreement(ctx) -> None:
+    """'whenever both back ends accept a string they return the same value': the structural sibling rules of C07
+    (table searches, week dates, offsets) and C13 (durations) are the decidable part of this clause."""
+    from . import C07
+    C07._py_forward(ctx)
+    C07._py_backward(ctx)
+    try:
+        mir = mirfront.load()
+        from .. import mirsym
+        sf = mirsym.struct_fields_from_source((core.REPO / "rust/src/parsing.rs").read_text())
+    except mirfront.MirUnavailable:
+        return
+    C07._rs_forward(ctx, mir, sf)
+    C07._week(ctx, mir, sf)
+    from . import C13
+    C13._rust_arith(ctx)        # 'never a value computed from silently wrapped-around numbers'
+
+
 def run(ctx) -> None:
     ctx.explanation = EXPLANATION
     _nullable_uses(ctx, "parsing", "_parse_common", "COMMON")
@@ -345,6 +363,7 @@ def run(ctx) -> None:
     _rust_and_ladder(ctx)
     _strict_gate(ctx)
     _explicit_raises(ctx)
+    _backend_agreement(ctx)
     ctx.expect_min("NULLABLE-GROUP", 25)
     ctx.expect_min("UNBOUNDED-INT", 5)
     ctx.expect_min("CAST-UNION", 3)
